@@ -255,6 +255,23 @@ func c10cases(thorough bool) []c10case {
 		}
 	}
 	// sharing: one record referenced twice
+	// three references to one record: pointer slot, value slot, pointer slot (in every order of the three fields)
+	for _, ord := range [][]string{{"p", "v", "p2"}, {"p", "p2", "v"}, {"v", "p", "p2"}, {"p2", "v", "p"}} {
+		cs = append(cs, c10case{class: "shared-three-refs/" + strings.Join(ord, "-"), setup: `(def in (vinner s:"sh" n:5))`,
+			rec: "(vall " + ord[0] + ":in " + ord[1] + ":in " + ord[2] + ":in)", sameP: true,
+			want: func() *VAll { in := &VInner{S: "sh", N: 5}; return &VAll{P: in, P2: in, V: *in} }})
+	}
+	cs = append(cs, c10case{class: "shared-three-refs/slice-value-slice", setup: `(def in (vinner s:"sh" n:5))`, rec: `(vall ps:[in] v:in ifs:[in] p:in)`,
+		want: func() *VAll {
+			in := &VInner{S: "sh", N: 5}
+			return &VAll{P: in, V: *in, Ps: []*VInner{in}, Ifs: []VIface{in}}
+		},
+		same: func(v *VAll) string {
+			if len(v.Ps) != 1 || len(v.Ifs) != 1 || v.Ps[0] != v.P || v.Ifs[0] != VIface(v.P) {
+				return "the record referenced from a pointer slice, a value field, an interface slice and a pointer field is not one Go object in the three pointer-like slots"
+			}
+			return ""
+		}})
 	cs = append(cs, c10case{class: "shared-in-map-of-interface", setup: `(def in (vinner s:"sh" n:5))`, rec: `(vall p:in mif:(hash left:in right:in))`,
 		want: func() *VAll {
 			in := &VInner{S: "sh", N: 5}
@@ -490,6 +507,17 @@ func c10seq(c *engine.Ctx, only string) {
 		{"arg-after-being-receiver-like-nesting", []string{`(def in (vinner s:"a" n:1))`, `(def a (vall if:in ifs:[in]))`, `(_method a EchoSelf:)`, `(hset in n: 5)`, `(_method a EchoInner: in)`}, []string{`n:5`}},
 		{"togo-twice-with-hset-between", []string{`(def in (vinner s:"a" n:1))`, `(togo in)`, `(hset in n: 7)`, `(str (togo in))`}, []string{`N:7`}},
 	}
+	seqs = append(seqs, []struct {
+		name   string
+		script []string
+		want   []string
+	}{
+		// a map field that shrinks between two conversions: the Go map must not keep the removed entries
+		{"map-field-shrinks", []string{`(def a (vall ms:(hash k:"v" j:"w")))`, `(togo a)`, `(hset a ms: (hash k:"z"))`, `(togo a)`}, []string{`"k":"z"`, `!"j":`}},
+		{"map-of-interface-shrinks", []string{`(def a (vall mi:(hash k:1 j:"s")))`, `(togo a)`, `(hset a mi: (hash k:2))`, `(togo a)`}, []string{`"k":2`, `!"j":`}},
+		{"slice-field-shrinks", []string{`(def a (vall strs:["a" "b" "c"]))`, `(togo a)`, `(hset a strs: ["z"])`, `(togo a)`}, []string{`Strs:[]string{"z"}`}},
+		{"pointer-field-cleared", []string{`(def a (vall p:(vinner s:"a" n:1)))`, `(togo a)`, `(hset a p: nil)`, `(togo a)`}, []string{`P:(*props.VInner)(nil)`}},
+	}...)
 	for _, sq := range seqs {
 		w := "SEQ|" + sq.name
 		if !(only == "" && c.Mine() || only == w) {
@@ -505,8 +533,18 @@ func c10seq(c *engine.Ctx, only string) {
 		got := last.String()
 		if last.OK() {
 			got = last.Sexp.SexpString(nil)
+			if str, isStr := last.Sexp.(*zygo.SexpStr); isStr {
+				got = str.S // (togo x) returns the Go-syntax rendering as a string
+			}
 		}
 		for _, sub := range sq.want {
+			if strings.HasPrefix(sub, "!") { // must NOT occur
+				if strings.Contains(got, sub[1:]) {
+					c.Violation("stale-conversion", "C10/stale-conversion/"+sq.name, w, fmt.Sprintf("after %q the Go side still holds %s: %s", sq.script, sub[1:], clipS(got, 300)))
+					break
+				}
+				continue
+			}
 			if !strings.Contains(got, sub) {
 				c.Violation("stale-conversion", "C10/stale-conversion/"+sq.name, w, fmt.Sprintf("after %q the Go side saw %s; the record's current values include %s", sq.script, clipS(got, 300), sub))
 				break
@@ -522,7 +560,7 @@ func init() {
 		ID:    "C10",
 		Level: "exploration",
 		Rule: "harness-registered Go struct types with one field of every supported kind (string, int, int64, float64, bool, []string, []int, []byte, map[string]string|float64|interface, time.Time, embedded struct, *struct, struct value, interface holding a registered struct, slice of such interfaces, slices of struct values and of struct pointers, map of interfaces, three levels of embedding, untagged field): " +
-			"for 2-4 values per kind, combinations, and 4 sharing patterns the Go value is fixed first and the record text derived from it; SexpToGoStructs and (togo r) must give reflect.DeepEqual values with one object per shared record; (_method a EchoSelf:) must return an equal record; 11 records with an undeclared field or a wrong-kind value must be reported as errors; 5 sequences in which a record changes (hset) after it has already been converted once and is then passed to Go again",
+			"for 2-4 values per kind, combinations, and 4 sharing patterns the Go value is fixed first and the record text derived from it; SexpToGoStructs and (togo r) must give reflect.DeepEqual values with one object per shared record; (_method a EchoSelf:) must return an equal record; 11 records with an undeclared field or a wrong-kind value must be reported as errors; 9 sequences in which a record changes (hset) after it has already been converted once and is then passed to Go again",
 		Assumptions: []string{"types are registered by the harness through the public registry API, like the demo structs"},
 		Run: func(c *engine.Ctx) {
 			for _, k := range c10cases(c.Thorough()) {
